@@ -114,10 +114,26 @@ def classify_stall(text):
     Returns a description or None."""
     blocks = [b for b in text.split("\n\n") if b.startswith("goroutine ")]
     victims = []
+    # only the bubble of the run in progress (abandoned bubbles of earlier,
+    # failed runs may still have blocked goroutines)
+    cur = None
     for b in blocks:
         head = b.split("\n", 1)[0]
-        if "synctest bubble" not in head:
+        if "synctest.Run" in head:
+            m = re.search(r"synctest bubble (\d+)", head)
+            if m:
+                cur = m.group(1)
+    if cur is None:
+        return None
+    for b in blocks:
+        head = b.split("\n", 1)[0]
+        if not re.search(r"synctest bubble %s[\],]" % cur, head):
             continue
+        if "[sleep" in head and "asyncmachine-go/pkg/" in b:
+            # the code under test sleeps (possibly holding the lock): fake
+            # time cannot advance while somebody waits for a mutex, a real
+            # process would simply wait
+            return None
         under_test = [l.strip() for l in b.split("\n") if "asyncmachine-go/pkg/" in l and not l.startswith("\t") and "pkg/x/simhook" not in l]
         if re.search(r"\[(running|runnable)", head):
             return None
@@ -280,6 +296,11 @@ def search(prop, family, meta, tier, seed, workers, budget, binary, scratch, t0,
             cls = "%s/process-crash" % prop
             m = re.search(r"^(panic: .*|fatal error: .*)$", se2 or "", re.M)
             what = m.group(1) if m else "exit %s" % p.returncode
+            m2 = re.search(r"asyncmachine-go/(pkg/[\w/]+\.[^\s(]*(?:\([^)]*\))?[\w.]*)\(", se2 or "")
+            if m2:
+                fn = m2.group(1).replace("(*", "").replace(")", "")
+                cls += "/" + fn.split("/")[-1]
+                what += " in " + fn
             if "verifsim/" in what:
                 harness.append("worker crash inside the harness at seed %s: %s" % (cur, what))
                 continue
